@@ -176,6 +176,10 @@ def stat_cases(rng, seeds, tier):
     wsets = [[1.0], [1.0, 3.0], [1.0, 0.0, 3.0], [0.0, 2.0, 2.0, 0.0, 4.0], [0.05, 0.9, 0.05], [float(i + 1) for i in range(12)]]
     wsets += [weights(rng, rng.randint(2, 12)) for _ in range(6 if big else 2)]
     i = 0
+    for j, pr in enumerate([0.5, 0.3, 0.01, 0.999, 0.0, 1.0]):
+        cases.append(["case chi2-coin-%d" % j, "seed %d" % seeds[j % len(seeds)], "chi2 coin %d %s %s" % (n_chi, hx(pr), hx(1.0 - pr))])
+    for j, k in enumerate([1, 2, 7, 12]):
+        cases.append(["case chi2-uint-%d" % j, "seed %d" % seeds[(j + 5) % len(seeds)], "chi2 uint %d %s" % (n_chi, " ".join([hx(1.0)] * k))])
     for kind in kinds:
         for w in wsets:
             s = seeds[i % len(seeds)]; i += 1
